@@ -147,8 +147,59 @@ def decision_table(paths):
     return atoms, rows
 
 
+def _facts(conds):
+    facts = set()
+
+    def add(f):
+        if f[0] == 'and':
+            for g in f[1]:
+                add(g)
+        elif f[0] == 'not' and f[1][0] == 'or':
+            for g in f[1][1]:
+                add(neg(g))
+        elif f[0] == 'not' and f[1][0] == 'not':
+            add(f[1][1])
+        else:
+            facts.add(f)
+    for c in conds:
+        f = formula(c[0])
+        add(f if c[1] else neg(f))
+    return facts
+
+
+def _entails(facts, f):
+    if f in facts:
+        return True
+    if f[0] == 'const':
+        return f[1]
+    if f[0] == 'and':
+        return all(_entails(facts, g) for g in f[1])
+    if f[0] == 'or':
+        return any(_entails(facts, g) for g in f[1])
+    if f[0] == 'not':
+        return _refutes(facts, f[1])
+    return False
+
+
+def _refutes(facts, f):
+    if neg(f) in facts:
+        return True
+    if f[0] == 'const':
+        return not f[1]
+    if f[0] == 'or':
+        return all(_refutes(facts, g) for g in f[1])
+    if f[0] == 'and':
+        return any(_refutes(facts, g) for g in f[1])
+    if f[0] == 'not':
+        return _entails(facts, f[1])
+    return False
+
+
 def implied(conds, f):
-    """do the path conditions propositionally imply formula f?"""
+    """do the path conditions propositionally imply formula f?  (structural entailment first -- it also works when
+    there are too many elementary tests for a truth table -- then the table)"""
+    if _entails(_facts(conds), f):
+        return True
     pf = path_formula(conds)
     atoms = sorted(atoms_of(pf) | atoms_of(f), key=repr)
     if len(atoms) > MAX_ATOMS:
